@@ -28,6 +28,7 @@ EXPLANATION = (
     "unions all components) and visitor coverage (CallVarsExtractor defines a visit method for every lazy node "
     "class and reads every child-bearing field, derived from the inferred field types), and back-quoted names "
     "are stripped identically where they are resolved and where they are counted as used."
+    ' R9.4 also: in-place updates of used-variable sets hit sets created on the spot (`x.var_names` is fresh only if every implementation returns a fresh set). R9.5 interaction columns are plain products and nothing on the numeric path tests for or replaces missing values.'
 )
 ASSUMPTIONS = [
     "pandas: DataFrame.isna().any(axis=1) marks rows with a missing value; boolean indexing with the mask of the same frame is positional",
